@@ -30,11 +30,12 @@ class LibRaised(Exception):
 def lib_call(op, fn, *a, **k):
     """Call into the library; only exceptions raised *by that call* become LibRaised
     (a candidate violation) - anything raised by harness code stays a harness error."""
-    from . import kernel, seams
+    from . import ctx as _c, kernel, seams
 
     try:
         return fn(*a, **k)
-    except (kernel.Deadlock, kernel.StepCap, kernel.Overdue, kernel.SimAbort, seams.UnseamedNondeterminism):
+    except (kernel.Deadlock, kernel.StepCap, kernel.Overdue, kernel.SimAbort, seams.UnseamedNondeterminism,
+            seams.BusyWait, _c.Runaway):
         raise
     except Exception as e:  # noqa
         raise LibRaised(op, e) from e
